@@ -301,6 +301,18 @@ func builtinMakeValidator(env *lisp.LEnv, args *lisp.LVal) *lisp.LVal {
 // finds the correct validation handler for the type
 func getHandler(env *lisp.LEnv, in *lisp.LVal, name string, constraints []*lisp.LVal) *lisp.LVal {
 	lType, _ := lisp.GoString(in)
+	// Reject a non-constraint in a constraint list at CONSTRUCTION.  Left to
+	// applyConstraint it is only discovered when (and if) validation reaches
+	// it, and an enclosing s:not / s:when guard reads that late refusal as
+	// "the constraint failed" -- validation passes.  The one non-constraint a
+	// list may hold is the user-data type name that may follow "tagged-value".
+	for i, c := range constraints {
+		if isValidator(c) || (lType == TaggedVal && i == 0 && c.Type == lisp.LString) {
+			continue
+		}
+		return lisp.ErrorConditionf(BadArgs,
+			"Value is not a schema constraint: %v. Constraints must be built by the s package (s:int, s:has-key, s:gt, ...) or by libschema.NewValidator.", c)
+	}
 	var res *lisp.LVal
 	switch lType {
 	case String:
